@@ -32,9 +32,25 @@ THEOREMS = [
     "Ural.Props.C07.canonicalized_stems_factor",
     "Ural.Props.C07.normalized_stems_factor",
     "Ural.Props.C07.fingerprinted_stems_factor",
+    # "set_lru / match_lru accept url_to_lru(u) and lru_stems(u) interchangeably" for the stems of REAL URLs: the C11 and
+    # the C12 models of serialization.py / clean_trailing_path proved equal, C12's StemsOK discharges WellTagged
+    # (Lemmas/LruTrieSerial.lean, Props/C11Serial.lean)
+    "Ural.LruTrie.tags_same_set",
+    "Ural.LruTrie.unserializeLru_eq",
+    "Ural.LruTrie.serializeLru_eq",
+    "Ural.LruTrie.cleanTrailingPath_eq",
+    "Ural.LruTrie.wellTagged_of_stemsOK",
+    "Ural.Props.C11.serialization_models_agree",
+    "Ural.Props.C11.wellTagged_iff_stemsOK",
+    "Ural.Props.C11.set_lru_interchangeable_stems",
+    "Ural.Props.C11.set_lru_interchangeable_url",
+    "Ural.Props.C11.set_lru_interchangeable_url_psl",
+    "Ural.Props.C11.entry_setLru_url",
+    "Ural.Props.C12.serialization_string",
+    "Ural.Props.C12.serialization_string_psl",
 ]
 TABLE_OBLIGATIONS = ["Ural.Props.C11.splitter_tags_cover"]
-EXTRA_IMPORTS = ["UralModel.Lemmas.LruTrie", "UralModel.Props.C11Whole"]
+EXTRA_IMPORTS = ["UralModel.Lemmas.LruTrie", "UralModel.Props.C11Whole", "UralModel.Props.C11Serial"]
 RULE = (
     "Three kinds of cases. (1) history: a configuration (one of LRUTrie / CanonicalizedLRUTrie / "
     "NormalizedLRUTrie / FingerprintedLRUTrie x suffix_aware x variant options) and a sequence of "
